@@ -143,13 +143,18 @@ PROPERTIES = {
              'Bounded stand-in for the map level: native enumeration against a model-level oracle (kx/enum).',
         out=['quill/src/action/extend_inner_class_names.rs map / extend / contract over Mappings (IndexMap) -- bounded only', 'get_inner_class_name / get_inner_class_parent (Option::map with closures)']),
     'C13': dict(
-        level='other', verus=[], kani=[], enum=['mpo', 'jarmerge'],
-        technique=ENUM_TECH,
-        explanation='Bounded stand-in for merge_preserve_order: all 206 x 206 pairs of duplicate-free lists of length <= 4 over 5 elements.',
-        claim='Bounded (not proved): the merged member list contains every element of either side exactly once and nothing else, keeps the client order, and keeps the server order whenever the two orders are compatible. '
-              'Not covered: merge_slice / class_merger_merge callbacks, side annotations and the jar-level table (zip, IndexMap).',
-        note='Bounded stand-in, NOT a proof: Kani needs >300 s and >14 GB for one descriptor of length 1 (measured) and Verus has no str/Chars support, so the real functions are run natively on every input up to the stated bound and compared with an independent oracle; inputs beyond the bound are not covered. Real anyhow, scratch copy of the crate.',
-        out=['dukebox/src/merge.rs merge_slice, class_merger_merge, merge (jar table), sided_annotation', 'dukebox/src/storage/*']),
+        level='other', verus=['mergeord'], kani=[], enum=['mpo', 'jarmerge'],
+        technique=ENUM_TECH + '; the order preserving list merge (merge_preserve_order) additionally by ' + VERUS_TECH,
+        explanation='The property as a whole (jar level) is only covered by the bounded stand-in; the list merge that decides membership and order of interfaces, fields and methods is proved unboundedly. '
+                    'Bounded part: all 206 x 206 pairs of duplicate-free lists of length <= 4 over 5 elements (mpo); generated jar pairs (jarmerge).',
+        claim='Bounded (not proved) for the property as a whole. Unbounded proof for merge_preserve_order only, for all pairs of lists of any length: the result contains every element of either list and nothing else, '
+              'is duplicate free when both inputs are (exactly once), always contains the client list as a subsequence (client order preserved), contains the server list as a subsequence whenever both inputs are duplicate free and no two shared '
+              'elements occur in opposite orders (compatible orders), and the routine terminates. '
+              'Partial: merge_slice / class_merger_merge callbacks, side annotations and the jar-level table (zip, IndexMap) are covered by the bounded enumeration only.',
+        note='Trusted: Verus+Z3; extraction rules replacing std adaptors by their definitions (Peekable::next_if, Option::is_some_and, Vec::extend, Iterator::filter, slice::contains, vec.into_iter() dropped), '
+             'the PeekIter model of Peekable<slice::Iter>, and the instantiation T = u64 (the routine is parametric in T and uses only ==; derive(PartialEq) on the real key types is structural). '
+             'Bounded stand-in, NOT a proof, for everything else: the real functions are run natively on every input up to the stated bound and compared with an independent oracle; inputs beyond the bound are not covered. Real anyhow, scratch copy of the crate.',
+        out=['dukebox/src/merge.rs merge_slice, class_merger_merge, merge (jar table), sided_annotation -- bounded only', 'dukebox/src/storage/*']),
     'C18': dict(
         level='proof', verus=['desc', 'inner'], kani=[], enum=['desc', 'names', 'inner'],
         technique=VERUS_TECH,
@@ -163,7 +168,7 @@ PROPERTIES = {
              'Bounded stand-in for the name predicates and as a second opinion on the parsers: native enumeration against an independent oracle (kx/enum).',
         out=['duke/src/tree/mod.rs names::is_valid_* (assumed / bounded only)', 'duke/src/tree/class.rs, field.rs, method.rs check_valid wrappers', 'unicode names beyond the bounded alphabet', 'signatures (check_valid accepts everything)']),
     'C16': dict(
-        level='proof', verus=['rlabels', 'cwrite', 'wjump', 'wpool', 'wencode', 'wattrs', 'wtypes', 'wannot', 'wput', 'wfrom', 'rskip', 'rbranch', 'rscan', 'rpool', 'rdecode', 'rframes', 'rattrs', 'rtables', 'raccept', 'rtree', 'rarms', 'rtypes', 'rpoolres', 'rannot', 'aaccept', 'abuild', 'adiff', 'scope', 'c20len', 'desc', 'inner'], kani=[], enum=['desc', 'mapdesc', 'cls', 'enigma', 'nestio', 'tinyio'],
+        level='proof', verus=['rlabels', 'cwrite', 'wjump', 'wpool', 'wencode', 'wattrs', 'wtypes', 'wannot', 'wput', 'wfrom', 'rskip', 'rbranch', 'rscan', 'rpool', 'rdecode', 'rframes', 'rattrs', 'rtables', 'raccept', 'rtree', 'rarms', 'rtypes', 'rpoolres', 'rannot', 'aaccept', 'abuild', 'adiff', 'scope', 'c20len', 'desc', 'inner', 'mergeord'], kani=[], enum=['desc', 'mapdesc', 'cls', 'enigma', 'nestio', 'tinyio'],
         technique=VERUS_TECH + ': implicit safety obligations (overflow, index, unwrap, unreachable, termination)',
         claim='Unbounded proof of panic-freedom and termination for every function extracted for the other properties (Verus generates no-overflow, in-bounds, no-failing-unwrap, unreachable!() unreachable, decreases obligations for each). '
               'This includes the descriptor parsers (read_field_type, the three parse functions, get_arguments_size) on arbitrary text. Partial: the line-oriented text parsers built on BufRead are outside the verifier and not covered.',
